@@ -419,3 +419,5 @@ _quick("C10", "C10_stepdown", "a leader with a holder (E = 3 s) and a queued cli
 _quick("C11", "C11_lateack", "key of capacity 5 with a plain holder; ack-required lock A goes pending (1..2 followers, mode all), the persistence channel drained before or only after A's wait times out; exactly one error reply; ack-required lock B (same or another LockId) goes pending; 1..F positive acknowledgements naming A's record arrive late; then B's own flush report and F acknowledgements in both orders: B is answered SUCCED exactly once and only after its own acknowledgements", ["-witness", "1"], reach=["end", "a-timed-out", "late-acks"])
 
 _quick("C15", "C17_recycle", "(also under C17) 5..8 keys with values on a fast key table of 4 slots (some parked in the long-expiry table), all released, wheel swept, then 24 fresh keys one after the other: a key that was never given a value is never shown one (no value left on a key manager recycled through the pool)", ["-witness", "1"])
+
+_quick("C16", "C16_rotate", "history of C16_whole; after the compaction has chosen its inputs and opened rewrite.aof.tmp (schedule point at its time.Now()) the server goes on: nothing / a new persisted hold and a log rotation / the same plus a persisted release in the new current file; the compaction finishes; a restart recovers exactly the live holds", [], reach=["end", "rotated"], native=False)
